@@ -31,10 +31,10 @@ CLAIMED.update({
    technique='Coq inductive invariant over all schedules (data_sound) + RFC client refinement + differential correspondence under an adversarial network',
    text='Theorems: for every file, block size >= 1 and EVERY event list (datagrams from any endpoint, ticks) every DATA k ever emitted carries '
         'bytes [(k-1)B,kB) with 1<=k<=65535; only the last block is short; an RFC 1350 client fed any selection/reordering/duplication of '
-        'such packets plus arbitrary foreign ones reconstructs exactly the file; a file needing more than 65535 blocks is never reported '
+        'such packets plus arbitrary foreign ones reconstructs exactly the file; COMPLETION in the closed loop server + RFC client + network (loss-free: exactly blocks 1..|F|/B+1, client ends with F; lossy: any schedule of deliver/duplicate/lose/reorder/timer events in which the server does not reach its give-up test and enough effective deliveries occur ends with the client holding F; every schedule is safe); a file needing more than 65535 blocks is never reported '
         'complete and ACK 65535 is answered by ERROR. Model tied to tftpd.py by regenerated comparisons and by replaying seeded adversarial '
         'sessions (incl. the 65535-block boundary) on the real handler classes and the extracted model, comparing every datagram and state.',
-   note=COMMON_NOTE + 'Not proved: liveness under loss (server gives up, C09). Modelled not verified: UDP, socketserver, buffered read returning full blocks.',
+   note=COMMON_NOTE + 'Completion is proved under the explicit hypothesis that the give-up test of service_actions is never reached (sufficient clock condition proved); a lost OACK is never retransmitted by the server (theorem lost_oack_blocks) and is recovered by the client re-sending its request. Modelled not verified: UDP, socketserver, buffered read returning full blocks.',
    design='§7 C01'),
  'C05': dict(
    technique='Coq case analysis over the handler ladders (total functions) + differential fuzzing of the real handlers',
@@ -90,21 +90,21 @@ CLAIMED.update({
    technique='Coq proofs that the code\'s FAT-entry decoding, geometry and read arithmetic equal the bit-level / in-memory specification + three-way differential check',
    text='Theorems: the FAT entry read by Fat12/16/32Table equals the bit-level entry for every table and index; geometry (offsets, sizes, cluster count, type '
         'incl. the 4085/65525 boundaries) as computed by FatFileSystem.__init__ equals the specification reader; cluster n is bytes [data+(n-2)cs, +cs); ANY '
-        'sequence of seek/read/readinto/readall equals the same sequence on the in-memory content; timestamps are the specified bit fields. Tie: volumes '
+        'sequence of seek/read/readinto/readall equals the same sequence on the in-memory content; timestamps are the specified bit fields; the directory decoder of the code (grouping, long-name joining incl. its restart rules) equals the specification decoder on every region whose runs are valid or absent. Tie: volumes '
         'written by an independent writer over random legal geometries with fragmentation, long/short names, NT flags, deleted entries, labels, orphan runs: '
         'tree read through nobodd == extracted Coq spec reader == what was written; models vs real classes; seek/read scripts; image unchanged.',
-   note=FAT_NOTE + 'Directory decoding is proved through the C11 round trip (records written by the model decode to the name) not against an arbitrary corrupted run; '
+   note=FAT_NOTE + 'On regions with damaged runs the code and the specification reader legitimately differ in documented corners (a long-name record starting with 0, a deleted record inside a run); there the correspondence check ties the model to the code bug-for-bug; '
         'struct, memoryview, datetime and the code page are CPython. Found and fixed: lfn_valid rejected VFAT-legal names (listing raised).',
    design='§7 C03'),
  'C04': dict(
-   technique='Coq invariant proofs (byte-level FAT set/get frame; chain-level truncate/write/close/unlink well-formedness and frame over any history) + oracle by the extracted Coq structural check after every operation',
+   technique='Coq invariant and refinement proofs (byte-level FAT set/get frame; chain-level truncate/write/close/unlink well-formedness over any history; byte-level refinement of one open file to a byte array; directory-entry update/delete) + oracle by the extracted Coq structural check after every operation',
    text='Theorems: stage T on bytes (a stored entry reads back, every other entry incl. the FAT12 nibble neighbour and FAT32 top bits untouched, all copies '
         'identical); stage F on chains (truncate shrink/grow/zero, write, close, unlink keep every file well-formed: chain in range, linked, terminated, '
-        'duplicate-free, ceil(size/cs) long; other files and foreign entries untouched; ANY operation sequence on any family of files). Directory and '
-        'path-level operations are not modelled as image transformers: after EVERY operation of seeded histories (all ten operations, all FAT types, '
+        'duplicate-free, ceil(size/cs) long; other files and foreign entries untouched; ANY operation sequence on any family of files); stage D on bytes (ANY history of seek / write / truncate / read on one handle, failed steps included, refines a plain byte array; holes read as zeros whatever the clusters held; clusters outside the chain untouched); stage E on directory records (update in place rewrites one record, delete removes exactly one group, others byte-identical). Path-level '
+        'composition is not a theorem: after EVERY operation of seeded histories (all ten operations, all FAT types, '
         'empty/populated/fragmented volumes) the extracted Coq reader must report a clean complete structural check and the same tree as a plain in-memory '
         'model, through the same instance, a fresh instance and the spec reader, with bytes outside the partition unchanged.',
-   note=FAT_NOTE + 'PARTIAL: history_refines is proved at FAT/chain level only; directory entries and path operations are oracle/correspondence. '
+   note=FAT_NOTE + 'PARTIAL: history_refines is proved per layer (FAT bytes, chains, file bytes, directory records); the composition of the layers by the path operations (rename, mkdir, ...) is oracle/correspondence, incl. scripted corner-case histories and multi-step handle sessions. '
         'Found and fixed: truncate shrink slice, growth from empty map, chain leak in unlink/rmdir/rename, mkdir not zeroing, rename onto itself, rename of directories, lost case flags.',
    design='§7 C04'),
  'C06': dict(
@@ -121,10 +121,10 @@ CLAIMED.update({
    technique='Coq proofs about the allocator scan and all-or-nothing growth (in data area, no duplicates, complete; ENOSPC iff genuinely short) + fault enumeration over free-cluster counts',
    text='Theorems: every cluster the scan yields is free and inside the data area; one scan never yields a cluster twice (FAT32 hint wrap included) and finds '
         'every free cluster; growing truncate fails exactly when too few clusters are free, with ENOSPC and the state unchanged; a write that runs out leaves '
-        'the file well-formed holding a prefix. Tie: model vs real FatFile/FatTable on random sequences; fault enumeration: every allocating operation x every '
+        'the file well-formed holding a strict prefix of the buffer (byte level); a fixed root directory gives ENOSPC exactly when the records plus the end record do not fit even after compaction, and then lists and resolves as before; compaction preserves listing and look-ups. Tie: models vs real FatFile/FatTable/FatRoot on random sequences; fault enumeration: every allocating operation x every '
         'free-cluster / free-root-slot count from 0 to need, FAT12/16/32, with/without FSInfo, FATs larger than the data area: outcome ok or ENOSPC only, '
         'extracted structural check clean, bystanders intact, prefix / all-or-nothing, usable again after freeing.',
-   note=FAT_NOTE + 'Directory growth and root-slot exhaustion are oracle-level. Observation: cluster 2 is never allocated on FAT12/16; a full root directory needs one spare slot for the terminator. '
+   note=FAT_NOTE + 'Sub-directory growth through FatFile.write is oracle-level. Observation: cluster 2 is never allocated on FAT12/16; a full root directory needs one spare slot for the terminator. '
         'Found and fixed: allocation beyond the data area, duplicate clusters from Fat32Table.free.',
    design='§7 C10'),
  'C11': dict(
@@ -132,10 +132,10 @@ CLAIMED.update({
    text='Theorems: valid names = the VFAT rule; invalid / over-long names give ValueError with nothing produced; the records written decode (by the independent '
         'specification reader, through surrogate joining) to exactly the name; ordinals, terminator, 0xFFFF padding, checksum, <= 20 records; pure 8.3 names '
         '(optionally lower base/extension) need no long records; alias bytes legal; alias differs from every existing alias and long name; numeric tail is the '
-        'least free one; adding an entry never changes what existing names resolve to. Tie: model vs real FatDirectory on thousands of names x pre-seeded '
+        'least free one; after creating a new name every case variant resolves to the new entry, every key that resolved before still resolves to the same entry and the listing grows by exactly that name. Tie: model vs real FatDirectory on thousands of names x pre-seeded '
         'directories; on-disk oracle with the extracted reader and a raw decoder (listing, case variants, alias lookup, no shadowing, structural check).',
    note=FAT_NOTE + 'Unicode upper-casing and re.IGNORECASE folding are CPython\'s (explicit model inputs, validated over all code points). '
-        'Found and fixed: unanchored tail patterns produced duplicate aliases; lfn_valid accepted a trailing newline.',
+        'Found and fixed: unanchored tail patterns produced duplicate aliases; lfn_valid accepted a trailing newline; case flags decided with ASCII-only lower-casing (\'\u00c0b.txt\' listed as \'\u00e0b.txt\').',
    design='§7 C11'),
  'C12': dict(
    technique='Coq proof of a build/parse round trip (induction over EBR chains and GPT entry arrays, generic struct lemmas) over an AST-regenerated model + extracted-generator differential check',
@@ -157,15 +157,15 @@ CLAIMED.update({
  'C14': dict(
    technique='Coq soundness proof of a lock/mutation skeleton check + vm_compute of the check on the skeleton regenerated from the AST + line-level runtime tracing',
    text='Theorems: for every public function of fs.py/path.py and EVERY execution of its body (statements in any order, repeated, interrupted anywhere by return or exception, calls to '
-        'any depth) each store into the image happens while the thread holds the write side, and at the end the thread holds neither side; plus the generic soundness theorem of the check. '
+        'any depth) each store into the image happens while the thread holds the write side, and at the end the thread holds neither side; the composite operations (unlink, rename, mkdir, rmdir, touch, write_bytes/text, read_bytes/text, iterdir/glob/rglob, FatFile.write/truncate/readall) are ONE outermost lock section (all lock events and stores inside a single with-block); plus the generic soundness theorems of both checks. '
         'Tie: the skeleton (with-lock nesting, store sites, call sites) is regenerated from the source on every run (fail closed on bare acquire/release); runtime: RWLock wrapped by a recorder, '
         'image diffed at every executed line over seeded histories incl. reads, listings, exhausted / closed / dropped generators, atime reads; 2-4 real threads on one volume vs serial result.',
-   note=FAT_NOTE + 'The skeleton is an over-approximation resolved by method name (trusted translator); serial equivalence under real pre-emption is observed only by the thread tier (PARTIAL).',
+   note=FAT_NOTE + 'The skeleton is an over-approximation resolved by method name (trusted translator; it refuses lock sections inside loops for the single-section theorem); serial equivalence then follows from the exclusion theorems of C13, informally composed; real pre-emption is observed only by the thread tier (PARTIAL). Found and fixed: FatFile.write padded past EOF in a separate exclusive section.',
    design='§7 C14'),
  'C15': dict(
    technique='Coq proof of the dirty-bracket discipline over the regenerated skeleton + every intermediate image of the implementation checked by the extracted Coq structural reader',
    text='Theorem (partial): every store made by an API operation lies inside a mark_dirty bracket (flag set before, restored after, also on exceptions) except the access-time update and the '
-        'stores of the flag itself. Oracle on EVERY intermediate image (image diffed at each executed line, C04 histories and C10 out-of-space cases): inconsistent => dirty flag set (FAT16/32); '
+        'stores of the flag itself; appending a directory entry stores its records from the highest index down, so at every crash point the records before the old end and the decoded bystander entries are unchanged. Oracle on EVERY intermediate image (image diffed at each executed line, C04 histories incl. handle sessions, C10 out-of-space cases, creation in a full root that is compacted in place, by every creating mode): inconsistent => dirty flag set (FAT16/32); '
         'flag restored and volume consistent at the end; every bystander file found with unchanged content at every crash point on all FAT types.',
    note=FAT_NOTE + 'PARTIAL: that bracketed stores leave bystanders intact is oracle-level, not a theorem. Two known findings are recorded (known_findings.json): flag restored in the primary FAT copy first; '
         'open empty file keeps its cluster until close by design. Torn stores within one source line are treated as atomic.',
